@@ -470,13 +470,15 @@ Definition same_accounting (l l' : ledger) : Prop :=
   l_reqs l' = l_reqs l /\ l_handles l' = l_handles l /\ l_hq l' = l_hq l /\
   l_mem l' = l_mem l /\ l_dangling l' = l_dangling l.
 
-Lemma fs_event_start_partial io kw nr l w :
+(* every error return: accounting, kernel watches and descriptors as before, except that the
+   loop-owned inotify descriptor may have been created (it is released by uv_loop_close) *)
+Lemma fs_event_start_fault_safe io kw nr l w :
   let o := uv_fs_event_start io kw nr l w in
   o_res o = Ret RcOk \/
   (exists s, o_res o = Abort s /\ permitted s = true) \/
   (exists r, o_res o = Ret r /\ r <> RcOk /\ same_accounting l (o_led o) /\
-     (l_fds (o_led o) = l_fds l \/ (io = false /\ l_fds (o_led o) = l_fds l + 1)) /\
-     (l_watch (o_led o) = l_watch l \/ (r = RcErr ENOMEM /\ l_watch (o_led o) = l_watch l + 1))).
+     l_watch (o_led o) = l_watch l /\
+     (l_fds (o_led o) = l_fds l \/ (io = false /\ l_fds (o_led o) = l_fds l + 1))).
 Proof.
   cbv zeta. unfold uv_fs_event_start.
   assert (S2 : forall l1 v, same_accounting l l1 ->
@@ -485,27 +487,25 @@ Proof.
        match a with
        | Ok => if kw then mkO (Ret RcOk) (add_handles 1 l1) None w0
                else let '(ok, w1) := alloc PMalloc w0 in
-                    if negb ok then mkO (Ret (RcErr ENOMEM)) (add_watch 1 l1) None w1
-                    else mkO (Ret RcOk) (add_handles 1 (add_mem 1 l1)) None w1
+                    if negb ok then mkO (Ret (RcErr ENOMEM)) l1 None w1
+                    else mkO (Ret RcOk) (add_watch 1 (add_handles 1 (add_mem 1 l1))) None w1
        | Fail e => mkO (Ret (RcErr e)) l1 None w0
        | Intr => mkO (Ret RcIntr) l1 None w0
        end) in
      o_res o = Ret RcOk \/
      (exists r, o_res o = Ret r /\ r <> RcOk /\ same_accounting l (o_led o) /\
-       (l_fds (o_led o) = l_fds l \/ (io = false /\ l_fds (o_led o) = l_fds l + 1)) /\
-       (l_watch (o_led o) = l_watch l \/ (r = RcErr ENOMEM /\ l_watch (o_led o) = l_watch l + 1)))).
+       l_watch (o_led o) = l_watch l /\
+       (l_fds (o_led o) = l_fds l \/ (io = false /\ l_fds (o_led o) = l_fds l + 1)))).
   { intros l1 v SA FD WT. cbv zeta. destruct (sys PInotifyAdd v) as [a v0]. destruct a.
     - destruct kw; [left; reflexivity|]. destruct (alloc PMalloc v0) as [b v1]. destruct b; cbn.
       + left; reflexivity.
-      + right. exists (RcErr ENOMEM). split; [reflexivity|]. split; [discriminate|].
-        unfold same_accounting in *. cbn. intuition.
+      + right. exists (RcErr ENOMEM). split; [reflexivity|]. split; [discriminate|]. intuition.
     - right. exists (RcErr e). cbn. split; [reflexivity|]. split; [discriminate|]. intuition.
     - right. exists RcIntr. cbn. split; [reflexivity|]. split; [discriminate|]. intuition. }
   destruct io.
   - destruct (S2 l w) as [A|A]; [unfold same_accounting; intuition|left; reflexivity|reflexivity|left; exact A|right; right; exact A].
   - destruct (sys PInotifyInit w) as [a v]. destruct a.
-    + pose proof (maybe_resize_spec nr (add_fds 1 l) v) as M.
-      unfold maybe_resize in *. destruct nr.
+    + unfold maybe_resize. destruct nr.
       * destruct (alloc PRealloc v) as [b v1]. destruct b; cbn in *.
         -- destruct (S2 (add_fds 1 l) v1) as [A|A];
              [unfold same_accounting; cbn; intuition|right; cbn; split; [reflexivity|lia]|reflexivity|left; exact A|right; right; exact A].
@@ -518,11 +518,25 @@ Proof.
       unfold same_accounting. intuition.
 Qed.
 
-Lemma fs_event_start_watch_witness :
-  exists (w : world) (l : ledger),
-    o_res (uv_fs_event_start true false false l w) = Ret (RcErr ENOMEM) /\
-    l_watch (o_led (uv_fs_event_start true false false l w)) = l_watch l + 1.
-Proof. exists (mkW [false] [] []), l0. vm_compute. split; reflexivity. Qed.
+(* history: before /repo 3625d2b the UV_ENOMEM return kept the kernel watch *)
+Definition uv_fs_event_start_unfixed (inotify_open known_wd : bool) (l : ledger) (w : world) : out :=
+  if negb inotify_open || known_wd then uv_fs_event_start inotify_open known_wd false l w
+  else
+    let '(a, w) := sys PInotifyAdd w in
+    match a with
+    | Ok => let '(ok, w) := alloc PMalloc w in
+            if negb ok then mkO (Ret (RcErr ENOMEM)) (add_watch 1 l) None w
+            else mkO (Ret RcOk) (add_watch 1 (add_handles 1 (add_mem 1 l))) None w
+    | Fail e => mkO (Ret (RcErr e)) l None w
+    | Intr => mkO (Ret RcIntr) l None w
+    end.
+
+Lemma fs_event_start_unfixed_watch_witness :
+  o_res (uv_fs_event_start_unfixed true false l0 (mkW [false] [] [])) = Ret (RcErr ENOMEM) /\
+  l_watch (o_led (uv_fs_event_start_unfixed true false l0 (mkW [false] [] []))) = 1 /\
+  o_res (uv_fs_event_start true false false l0 (mkW [false] [] [])) = Ret (RcErr ENOMEM) /\
+  l_watch (o_led (uv_fs_event_start true false false l0 (mkW [false] [] []))) = 0.
+Proof. vm_compute. repeat split. Qed.
 
 (* ---------------------------------------------------------------------- *)
 (* uv_spawn: accounting on every error return                               *)
